@@ -225,8 +225,24 @@ def gate(ctx):
     loose = dict(mt2, atoms=mt2['atoms'] + [extra])
     cases.append(('unbonded_atom_in_residue', loose, True, 'F6'))
     cases.append(('connected', mt2, False, None))
+    # generated: chains (also with residue numbering that restarts inside the molecule: merged chains) from which one
+    # inter-residue bond is taken out, as the only or as the second molecule type; and connected controls
+    for k in range(ctx.n(8, 40)):
+        n = rng.randint(3, 6)
+        g = systems.gen_moltype(rng, 'MA', nres=n, shape='path', multi_atom=rng.random() < 0.4, restart=rng.random() < 0.6)
+        resof = {a['idx']: a['res'] for a in g['atoms']}
+        inter = [b for b in g['bonds'] if resof[b[0]] != resof[b[1]]]
+        if k % 4 == 3:
+            cases.append((f'connected chain {k} (numbering restarts: {len({a["resid"] for a in g["atoms"]}) < n})', g, False, None))
+        else:
+            cut = rng.choice(inter)
+            cases.append((f'chain {k} without the bond {cut} (numbering restarts: {len({a["resid"] for a in g["atoms"]}) < n})',
+                          dict(g, bonds=[b for b in g['bonds'] if b != cut]), True, None))
     for kind, m, must_refuse, fid in cases:
         top = systems.top_text([m], [('MA', 1)])
+        if kind.startswith('chain') and rng.random() < 0.4:
+            other = systems.gen_moltype(rng, 'MB', nres=2, shape='path')
+            top = systems.top_text([other, m], [('MB', 1), ('MA', 1)])
         with systems.Workdir() as wd:
             res = systems.run_gen_coords(wd, top, box=np.array([5.0, 5.0, 5.0]), timeout=40)
         refused = (not res['ok']) and res.get('exc_type') in ('OSError', 'IOError')
